@@ -5,7 +5,7 @@ from props import solverstream as ss, tracecheck as tc, enctie, antie
 THEOREMS = ["C02_reference_correct", "C02_facts_hold", "C02_rup_sound", "C02_refutation_sound",
             "C02_trace_no_false_unsat", "C02_solvable_not_refuted",
             "C02_encoder_adds_facts", "C02_encoder_sound", "C02_analyze_sound", "C02_analyses_entail",
-            "C02_unsolvable_core_refutes"]
+            "C02_unsolvable_core_refutes", "C02_checked_propagate_sound"]
 CHECKER = ("coqc Props/C02.v + Print Assumptions; harness solve_cases (debug+release, sync+yield, several activity "
            "parameters): (a) hook logs of every Unsolvable -> extracted check_unsat_log (facts, RUP of every learnt clause "
            "from its recorded antecedents, root-level conflict), (b) verdict compared with extracted u_solvableb, (c) extracted "
@@ -36,6 +36,12 @@ def run(res, tier, seed, replay):
     tc.annotate(recs)
     enctie.annotate(recs)
     antie.annotate(recs)
+    antie.annotate_propagates(recs)
+    for r in recs:
+        if not antie.ok_propagates(r):
+            res.tie_break(f"propagate correspondence no longer checks for a run in {r['stream']}: a call of Solver::propagate made other "
+                          f"assignments or reported another conflict than the model (Cdcl/Propagate.v), or a hypothesis of "
+                          f"C02_checked_propagate_sound fails: {r['props']}", dict(tc.trace_replay(r), propagate=r["props"]))
     hist = {}
     for r in recs:
         k = ss.outcome_kind(r["obs"]["outcome"])
